@@ -56,9 +56,9 @@ var sweepFaultCalls = []string{"", "", "ln.ProbePayment", "ln.SpendableMsat", "l
 func genSweepScenario(t *rapid.T, silence, csv bool) sweepScenario {
 	s := sweepScenario{
 		SilentAfter: -1,
-		Type:  rapid.SampledFrom([]string{"out", "in"}).Draw(t, "swType"),
-		Chain: rapid.SampledFrom([]string{"btc", "lbtc"}).Draw(t, "swChain"),
-		LND:   rapid.Bool().Draw(t, "swLnd"),
+		Type:        rapid.SampledFrom([]string{"out", "in"}).Draw(t, "swType"),
+		Chain:       rapid.SampledFrom([]string{"btc", "lbtc"}).Draw(t, "swChain"),
+		LND:         rapid.Bool().Draw(t, "swLnd"),
 	}
 	s.FaultCall = rapid.SampledFrom(sweepFaultCalls).Draw(t, "swFault")
 	if s.FaultCall != "" {
